@@ -9,14 +9,31 @@
    * C11_total, C11_roundtrip: full strength for graphs of any size (decode_from_dict o
      encode_to_dict); callbacks (functools.partial) correspond to None at this level.
    * the re-creation of the head callbacks by json_to_state (second half of Serial.json_to_state)
-     has its own theorem C11_callbacks_recreated (every head of every flow state gets two fresh
-     partials bound to (state, its flow state); frame for the rest of the decoded heap); the two
-     halves are not composed into one isomorphism statement for State-shaped graphs.
-   * C11_cleanup_commutes_partial covers the resolution of the matcher index; the claim for the
-     whole event loop ("same outgoing events") is validated by exploration (X2), not proved. *)
+     has its own theorem C11_callbacks_recreated; C11_state_roundtrip composes both halves for
+     State-shaped graphs with canonical callbacks (decidable hypothesis `state_hyps`, evaluated
+     on real states by the harness): json_to_state (state_to_json s) is isomorphic to s, callbacks
+     included, and every restored head carries callbacks bound to the restored State and to its
+     own restored FlowState.
+   * clean-up: the reference closure `refs_ok` (every uid in a child list, a scope flow list, a
+     per-flow list or an action list resolves; checked on every real state by the harness) is an
+     invariant (C11_cleanup_preserves_refs), on such states the clean-up never raises
+     (C11_cleanup_total), every lookup through a list of a remaining instance resolves to the
+     frame-image of what it resolved to before (C11_cleanup_lookups), index entries likewise
+     (C11_cleanup_commutes_partial), and a later second clean-up gives extensionally the state of
+     one clean-up at the later clock (C11_cleanup_later_clock_ext: per-flow lists and list orders
+     not covered).  What stays unproved: that the dispatch does nothing observable with the
+     discarded (done, non-activated) instances and does not read parent_uid of a discarded
+     parent, i.e. "same outgoing events" for the whole event loop - validated by exploration
+     (X2).
+   * bridge (V2/BridgeDef.v): `alpha` reads the abstract interpreter state of Cleanup.v off a State
+     object graph of Serial.v (tied to the harness's abstraction of real states by the
+     correspondence); it is invariant under the bisimulations of the round-trip theorems, so the
+     clean-up of a restored state equals the clean-up of the live state on the abstract state
+     (C11_cleanup_commutes_with_restore). *)
 From Coq Require Import ZArith List String Bool.
-From NG Require Import Gen.C11Consts V2.Serial V2.SerialRun V2.Serial_proofs V2.Serial_examples V2.Callbacks_proofs
-                       V2.Cleanup V2.Cleanup_proofs V2.CleanupRun V2.Cleanup_now.
+From NG Require Import Gen.C11Consts V2.Serial V2.SerialRun V2.Serial_proofs V2.Serial_examples V2.Callbacks_proofs V2.State_proofs V2.State_examples
+                       V2.Cleanup V2.Cleanup_proofs V2.Cleanup_clock V2.CleanupRun V2.Cleanup_now
+                       V2.BridgeDef V2.Bridge V2.BridgeRun V2.Bridge_examples.
 Import ListNotations.
 Open Scope string_scope.
 Open Scope Z_scope.
@@ -97,6 +114,48 @@ Theorem C11_callbacks_inhabited :
   collect_heads ex_cb_heap (VO 0) = Some [(VO 2, VO 6); (VO 2, VO 7); (VO 3, VO 8)].
 Proof. exact ex_cb_collect. Qed.
 Print Assumptions C11_callbacks_inhabited.
+
+(* json_to_state o state_to_json on a State: ONE statement.  For every State-shaped graph whose
+   heads carry the canonical callbacks partial(_flow_head_changed, state, flow_state) and in
+   which nothing else refers to a functools.partial (`state_hyps`, decidable), the restored graph
+   is related to the original by a bisimulation that also relates every callback to a callback
+   of the same function whose bound arguments correspond (bisim2), sharing is preserved, and
+   every restored head carries two distinct fresh callbacks bound to the RESTORED State and to
+   its OWN restored FlowState. *)
+Theorem C11_state_roundtrip :
+  forall h rk limit s,
+    supported flags_now classes_now h (VO s) = true -> acyclic h rk -> (rank_of rk (VO s) < limit)%nat ->
+    state_hyps h s = true ->
+    exists j h2 s' M W0,
+      encode flags_now limit h (VO s) = Some j /\
+      json_to_state flags_now classes_now limit j = Some (h2, VO s') /\
+      bisim2 h (VO s) h2 (VO s') M /\ sharing_preserved h M /\
+      collect_heads h (VO s) = Some W0 /\
+      (forall fs x x', In (fs, VO x) W0 -> In (x, x') M ->
+         exists fs' c fds ks p q a b,
+           vrel true h M fs fs' /\ lookup h2 x' = Some (mk (HData c fds) ks) /\
+           index_of pos_f fds = Some p /\ index_of stat_f fds = Some q /\
+           nth_error ks p = Some (VO a) /\ nth_error ks q = Some (VO b) /\ a <> b /\
+           lookup h2 a = Some (partial_node (VO s') fs') /\ lookup h2 b = Some (partial_node (VO s') fs')).
+Proof. exact (fun h rk limit s => state_roundtrip_b flags_now classes_now h rk limit s eq_refl late_tags_free_now). Qed.
+Print Assumptions C11_state_roundtrip.
+
+(* inhabited by a State built from the field lists of the current source: two flow states, three
+   heads with six callbacks, one Action shared by both flows, set / regex / int key *)
+Theorem C11_state_roundtrip_inhabited :
+  supported flags_fixed classes_now h_st (VO 0) = true /\ acyclic h_st rk_st /\
+  (rank_of rk_st (VO 0%Z) < 50)%nat /\ state_hyps h_st 0 = true.
+Proof. exact (conj st_supported (conj st_acyclic (conj st_rank st_hyps))). Qed.
+Print Assumptions C11_state_roundtrip_inhabited.
+
+(* (T) State.flow_states, FlowState.heads and the two callback attributes of FlowHead exist in
+   the classes of the current source *)
+Theorem C11_state_shape_in_source :
+  (exists fs, class_fields classes_now "State" = Some fs /\ index_of "flow_states" fs <> None) /\
+  (exists fs, class_fields classes_now "FlowState" = Some fs /\ index_of "heads" fs <> None) /\
+  (exists fs, class_fields classes_now "FlowHead" = Some fs /\ index_of pos_f fs <> None /\ index_of stat_f fs <> None).
+Proof. exact state_shape_in_source. Qed.
+Print Assumptions C11_state_shape_in_source.
 
 (* DESIGN section 5, F7: on the UNREPAIRED encoder a re.Pattern in a flow variable - a reachable
    value: `$r = regex("a")` - makes state_to_json raise at every recursion limit *)
@@ -193,6 +252,83 @@ Theorem C11_cleanup_commutes_partial :
               (candidates ix s name) (candidates ix s' name).
 Proof. exact candidates_now. Qed.
 Print Assumptions C11_cleanup_commutes_partial.
+
+(* the reference closure is an invariant of the clean-up (thanks to the purge of child and scope
+   lists), and on a closed state _clean_up_state raises neither KeyError nor ValueError *)
+Theorem C11_cleanup_preserves_refs :
+  forall now s s', refs_ok s -> cleanup_now now s = Some s' -> refs_ok s'.
+Proof. exact refs_ok_preserved. Qed.
+Print Assumptions C11_cleanup_preserves_refs.
+
+Theorem C11_cleanup_total : forall now s, refs_ok s -> exists s', cleanup_now now s = Some s'.
+Proof. exact total_now. Qed.
+Print Assumptions C11_cleanup_total.
+
+(* every lookup the dispatch can make through the lists of a remaining instance: children and
+   scope members resolve to the frame-image of the instance they resolved to before; a child
+   that left the list was discarded by this clean-up (done, not activated, old); the listed
+   actions are the very same objects *)
+Theorem C11_cleanup_lookups :
+  forall now s s',
+    refs_ok s -> cleanup_now now s = Some s' ->
+    forall u i i', slook (flows s) u = Some i -> slook (flows s') u = Some i' ->
+      (forall x, In x (i_children i') ->
+         exists ix ix', slook (flows s) x = Some ix /\ slook (flows s') x = Some ix' /\
+                        frame_rel (fun y => slook (flows s') y = None) ix ix') /\
+      (forall x, In x (i_children i) -> ~ In x (i_children i') ->
+         exists ix, slook (flows s) x = Some ix /\ removable cfg_now now ix = true /\ slook (flows s') x = None) /\
+      (forall k l' x, slook (i_scopes i') k = Some l' -> In x l' ->
+         exists ix ix', slook (flows s) x = Some ix /\ slook (flows s') x = Some ix' /\
+                        frame_rel (fun y => slook (flows s') y = None) ix ix') /\
+      (forall a, In a (i_actions i') -> exists act, slook (actions s) a = Some act /\ slook (actions s') a = Some act).
+Proof. exact lookups_now. Qed.
+Print Assumptions C11_cleanup_lookups.
+
+(* monotonicity in the clock: cleaning up at t1 and again at t2 >= t1 leaves the same instances,
+   with the same fields, the same children and scope members, and the same actions as cleaning
+   up once at t2 - the second clean-up removes exactly what became old enough in between.
+   EXTENSIONAL (lookups / membership): the order of lists and the per-flow lists are not compared. *)
+Theorem C11_cleanup_later_clock_ext :
+  forall t1 t2 s s1 s12 s2,
+    t1 <= t2 -> refs_ok s ->
+    cleanup_now t1 s = Some s1 -> cleanup_now t2 s1 = Some s12 -> cleanup_now t2 s = Some s2 ->
+    (forall u, slook (flows s12) u = None <-> slook (flows s2) u = None) /\
+    (forall u i12 i2, slook (flows s12) u = Some i12 -> slook (flows s2) u = Some i2 ->
+       (i_flow i12 = i_flow i2 /\ i_status i12 = i_status i2 /\ i_updated i12 = i_updated i2 /\
+        i_activated i12 = i_activated i2 /\ i_parent i12 = i_parent i2 /\ i_actions i12 = i_actions i2 /\
+        i_rest i12 = i_rest i2 /\ i_heads i12 = i_heads i2 /\ map fst (i_scopes i12) = map fst (i_scopes i2)) /\
+       (forall x, In x (i_children i12) <-> In x (i_children i2)) /\
+       (forall k l12 l2, slook (i_scopes i12) k = Some l12 -> slook (i_scopes i2) k = Some l2 ->
+                         forall x, In x l12 <-> In x l2)) /\
+    (forall a, slook (actions s12) a = slook (actions s2) a) /\
+    s_rest s12 = s_rest s2.
+Proof. exact later_clock_now. Qed.
+Print Assumptions C11_cleanup_later_clock_ext.
+
+(* clean-up commutes with save/restore: the abstract interpreter state read off the restored
+   State graph (json_to_state o state_to_json) is THE SAME as the one read off the live graph,
+   for every clock oracle ts; hence cleaning up after a restore = cleaning up the live state *)
+Theorem C11_cleanup_commutes_with_restore :
+  forall ts h rk limit s a,
+    supported flags_now classes_now h (VO s) = true -> acyclic h rk -> (rank_of rk (VO s) < limit)%nat ->
+    state_hyps h s = true ->
+    alpha ts h (VO s) = Some a ->
+    exists j h2 s',
+      encode flags_now limit h (VO s) = Some j /\ json_to_state flags_now classes_now limit j = Some (h2, VO s') /\
+      alpha ts h2 (VO s') = Some a /\
+      forall c now, option_map (cleanup c now) (alpha ts h2 (VO s')) = option_map (cleanup c now) (alpha ts h (VO s)).
+Proof. exact (fun ts h rk limit s a => alpha_restored ts flags_now classes_now h rk limit s a eq_refl late_tags_free_now). Qed.
+Print Assumptions C11_cleanup_commutes_with_restore.
+
+(* inhabited: the abstract state of the example State, with closed references *)
+Theorem C11_bridge_inhabited :
+  (exists a, alpha ts0 h_st (VO 0) = Some a /\ refs_okb a = true /\ List.length (flows a) = 2%nat).
+Proof. exact bridge_inhabited. Qed.
+Print Assumptions C11_bridge_inhabited.
+
+Theorem C11_cleanup_refs_inhabited : refs_ok ex_state.
+Proof. exact ex_state_refs_ok. Qed.
+Print Assumptions C11_cleanup_refs_inhabited.
 
 Theorem C11_cleanup_inhabited :
   exists s', cleanup_now 10000000 ex_state = Some s' /\ slook (flows s') "a1" = None /\
